@@ -167,6 +167,18 @@ def run(chk):
         chk.ok("C05.once.partial", resp[0][0], "the refusal precedes the construction of the error response")
     elif rz is not None:
         chk.violation("C05.once.partial", herr, "Response(status=status, ...)", "after the output_size test", "the error response is built before checking that nothing was sent")
+    # ... and so does every other place that builds a response of its own after the handler ran: the `except HTTPException` branch
+    for h in hs:
+        if PC.handler_types(h) != ["HTTPException"]:
+            continue
+        built = [c for c in ast.walk(h) if isinstance(c, ast.Call) and isinstance(c.func, ast.Name) and c.func.id == "Response"]
+        for c in built:
+            cl = PC.pc(c, stop=h)
+            if PC.has_lit(cl, [("request.writer.output_size > 0", False), ("request.writer.output_size <= 0", True), ("request.writer.output_size == 0", True), ("request.writer.output_size", False)], True) is not None:
+                chk.ok("C05.once.partial", c, "HTTPException raised by the handler: a response is built only if nothing of another response was written yet")
+            else:
+                chk.violation("C05.once.partial", c, K.short(c, 60), "!(request.writer.output_size > 0)",
+                              "a handler that already started a (streamed) response and then raises web.HTTPException gets a second status line and body written into the first response's body, with the first response's chunked framing still active, and the connection stays keep-alive: the client sees `HTTP/1.1 404 ...` where a chunk-size line is expected and the next request is answered on the corrupted stream")
     ef = K.exprs(herr, "resp.force_close()")
     if ef:
         chk.ok("C05.once.partial", ef[0][0], "error responses force-close the connection")
